@@ -1021,6 +1021,15 @@ def run(chk, tier):
     ob_repeated_reads(env)
     ob_load_base_dir(env, L)
     ob_load_reaches_all_tensors(env)
+    # anchor of the symbolic model in the real kernel: one escaping layout per layer (file symlink, symlinked directory, hard
+    # link, '..', absolute location) on a real directory tree must be refused by every read entry point (concrete)
+    chk.case("real-tree escaping layouts")
+    chk.obligations += 1
+    leaks = attack_layouts()
+    if leaks:
+        chk.violation("C10:real-tree:escaping-layout-read", f"on a real directory tree these escaping locations were read: {leaks}", dict(kind="layouts", leaks=leaks))
+    else:
+        chk.discharged += 1
     chk.extra["rule"] = "one case per obligation (containment / each entry point / load base dir); each decided for all strings within the length bound"
 
 
@@ -1043,6 +1052,8 @@ def _validate_join():
 
 
 def replay(rec):
+    if rec.get("kind") == "layouts":
+        return bool(attack_layouts())
     if rec.get("kind") == "reach":
         return True
     if rec.get("kind") == "load_dir":
